@@ -10,6 +10,7 @@ import traceback
 
 from .report import Ctx, finish, VERIF
 from .src import AnalysisError
+from .alg import AlgebraTimeout
 
 
 MAX_ALTS = 16
@@ -28,7 +29,14 @@ def run_with_scenarios(mod, ctx):
     ctx.notes["default_decided_conditions"] = S.decisions
     ctx.notes["alternative_scenarios"] = [_alt_label(a) for a in alts[:MAX_ALTS]]
     skipped = []
+    import time as _t
+    t_generic = _t.time() - ctx.t0
+    budget = max(60.0, 4.0 * t_generic)        # alternative scenarios are bounded in time as well as in number
+    t_alt0 = _t.time()
     for alt in alts[:MAX_ALTS]:
+        if _t.time() - t_alt0 > budget:
+            skipped.append(f"{_alt_label(alt)}: time budget for alternative scenarios exhausted")
+            continue
         S.mode = "alt"
         S.force_sites = frozenset([alt[1]]) if alt[0] == "force" else frozenset()
         set_zero_atoms(alt[1] if alt[0] == "zero" else ())
@@ -73,6 +81,22 @@ def main(argv=None):
     ap.add_argument("--jobs", type=int, default=int(os.environ.get("VERIF_JOBS", "16")))
     a = ap.parse_args(argv)
     prop = a.prop.upper()
+    # watchdog: a check that runs away (expression swell on an unforeseen path) ends as ANALYSIS-ERROR, never hangs
+    import signal
+    limit = int(os.environ.get("VERIF_TIME_LIMIT", "900" if a.tier == "quick" else "5400"))
+
+    def _timeout(signum, frame):
+        print(f"ANALYSIS-ERROR property={prop}: time limit of {limit}s exceeded")
+        sys.stdout.flush()
+        try:
+            import multiprocessing as mp
+            for c in mp.active_children():
+                c.kill()
+        except Exception:
+            pass
+        os._exit(2)
+    signal.signal(signal.SIGALRM, _timeout)
+    signal.alarm(limit)
     seed = int(os.environ.get("VERIF_SEED", "0") or 0)
     ctx = Ctx(prop, a.tier, a.root, seed=seed, jobs=a.jobs)
     try:
@@ -97,6 +121,9 @@ def main(argv=None):
                     write_evidence=write, evidence_dir=a.evidence_dir)
         return rc
     except AnalysisError as e:
+        print(f"ANALYSIS-ERROR property={prop}: {e}")
+        return 2
+    except AlgebraTimeout as e:
         print(f"ANALYSIS-ERROR property={prop}: {e}")
         return 2
     except Exception as e:  # fail closed, but never disguised as a violation
